@@ -66,6 +66,7 @@ structure Opts where
 inductive Op (P : Type)
   | write (p : P) (b : Bytes)        -- `with h.open(p, "wb") as f: f.write(b)`
   | writeAbort (p : P) (b : Bytes)   -- the same, but the caller's code raises inside the `with`
+  | writeIgnored (p : P) (b : Bytes) -- a new file matching `.gitignore`: written, but `git add` refuses it
   | openOnly (p : P) (b : Bytes)     -- opened and written, never closed
   | writeNoDir (p : P)               -- the directory of `p` does not exist
   | raise                            -- the caller's code raises
@@ -165,6 +166,10 @@ def runOp (revObjectLike : Bool) : Op P → St P → Res P
     match stage fault p { s with files := fun q => if q = p then some b else s.files q } with
     | (s1, true) => (s1, some .gitfail)
     | (s1, false) => (s1, some .abort)
+  | .writeIgnored p b, s =>
+    -- closing the file runs `git add`, which exits non-zero for an ignored path (whether or not the
+    -- injected failure hits it): `CalledProcessError`, also replacing an exception raised inside the `with`
+    ((call fault (.add p) { s with files := fun q => if q = p then some b else s.files q }).1, some .gitfail)
   | .openOnly p b, s => ({ s with files := fun q => if q = p then some b else s.files q }, none)
   | .writeNoDir _, s => (s, some .nodir)
   | .raise, s => (s, some .abort)
